@@ -515,6 +515,8 @@ func (r *v1run) finish() {
 		for r.recv() { // what was delivered must still be an in-order duplicate-free subsequence
 		}
 		r.drainErr()
+	case r.cfg.Extra["alone"] == true && !r.graceReq && r.aloneScenario():
+		fallthrough
 	default:
 		// a control call racing with termination panics in v1 (send on closed channel; observation N3, no property):
 		// let pending AddInput/RemoveInput calls return first, helping the scheduler to its top select
@@ -567,10 +569,10 @@ func (r *v1run) finish() {
 	}
 	close(r.stop)
 	r.observe()
-	if (r.stopRet.Load() || r.graceRet.Load()) && !r.exited.Load() {
+	if r.stopRet.Load() || r.graceRet.Load() {
 		synctest.Wait()
-		if !r.exited.Load() {
-			r.emit(obs{E: "Leak", Note: "scheduling goroutine alive after Stop/GracefulStop returned"})
+		if n := moduleGoroutines(); !r.exited.Load() || n > 0 {
+			r.emit(obs{E: "Leak", K: n, Note: "goroutines of the library remain after Stop/GracefulStop returned"})
 		}
 	}
 }
@@ -687,4 +689,70 @@ func TestRecordV1(t *testing.T) {
 		})
 	}
 	t.Logf("RECORDED v1 runs=%d records=%d", n, events.n)
+}
+
+// aloneScenario (C06): bring the discipline to "nothing in flight", then give data to ONE registered channel only and
+// never release: that priority must be granted all H handlers. Always returns false (the graceful end game follows).
+func (r *v1run) aloneScenario() bool {
+	r.waitFor(60, func() bool {
+		for len(r.held) > 0 {
+			r.release(0)
+		}
+		for r.recv() {
+		}
+		return false
+	})
+	var open []uint
+	for _, p := range r.cfg.Prios {
+		if c, ok := r.reg[p]; ok && !r.closedIn[c] && cap(r.ch[c]) > 0 {
+			open = append(open, p)
+		}
+	}
+	if len(open) == 0 {
+		return false
+	}
+	p := open[len(r.log)%len(open)]
+	c := r.reg[p]
+	var regd []uint
+	for _, q := range r.cfg.Prios {
+		if _, ok := r.reg[q]; ok {
+			regd = append(regd, q)
+		}
+	}
+	note := "non-fatal-config"
+	if !v1.IsNonFatalConfig(regd, dividerV1(r.cfg.Div), r.cfg.H) {
+		note = "fatal-config" // some priority of some sub-list gets nothing from the divider (v1 accepts such configurations: F4)
+	}
+	r.emit(obs{E: "A", P: p, C: uint(c), Note: note})
+	for idle := 0; idle < 10 && len(r.held) <= 3*int(r.cfg.H)+8; {
+		progressed := false
+		for len(r.ch[c]) < cap(r.ch[c]) {
+			r.nextItem[c]++
+			r.emit(obs{E: "W", C: uint(c), K: r.nextItem[c]})
+			r.ch[c] <- c*1000 + r.nextItem[c]
+			r.expect[c]++
+			progressed = true
+		}
+		r.observe()
+		for r.recv() {
+			progressed = true
+		}
+		if progressed {
+			idle = 0
+		} else {
+			idle++
+			time.Sleep(3 * time.Nanosecond)
+		}
+	}
+	qnote := ""
+	d1 := dividerV1(r.cfg.Div)
+	if unfilledBase(func(ps []uint, d uint, dist map[uint]uint) {
+		for k, v := range d1(ps, d, nil) {
+			dist[k] += v
+		}
+	}, regd, r.cfg.H, p, uint(len(r.held))) {
+		qnote = "unfilled-base-division"
+	}
+	r.emit(obs{E: "QA", P: p, Held: r.heldCounts(), Note: qnote})
+	return false
 }
